@@ -33,6 +33,11 @@ class Frame(object):
         self.ctx = ctx
         self.interp = interp
         self.native = False
+        self.writes = []
+
+    def unchanged(self):
+        """No pre-existing object was written during the call (syntactic, per path)."""
+        return len(self.writes) == 0
 
     def snapshot(self):
         memo = {}
@@ -94,6 +99,30 @@ class Builder(object):
         from .stubs import Logger
         return Logger()
 
+    def opaque(self, name):
+        from .values import Opaque
+        return Opaque(name)
+
+    def script(self, name):
+        """A configured enter/exit script: non-empty list of strings of symbolic length."""
+        import z3 as _z3
+        from .values import SymSeq
+        n = self.ctx.int(name + ".len")
+        self.ctx.assume(n >= 1)
+        arr = _z3.Array(self.ctx.fresh_name(name + ".lines"), _z3.IntSort(), _z3.StringSort())
+        return SymSeq(n, lambda k: _z3.Select(arr, k), name=name)
+
+    def set_current_user(self, anonymous):
+        self.ctx.ghost["anonymous"] = anonymous
+
+    def plugin_manager(self):
+        from .framework import PluginManager
+        return PluginManager()
+
+    def comm(self, streaming):
+        from .framework import Comm
+        return Comm(streaming)
+
 
 def make_interp(program, ctx, registry, top=None, externals=None):
     ext = externals or default_externals()
@@ -127,6 +156,7 @@ def bind_args(interp, finfo, full_args, kwargs, node=None):
 # ------------------------------------------------------------------------------------------
 def apply_contract(interp, con, finfo, full_args, kwargs, node):
     ctx = interp.ctx
+    full_args = [interp.deref(a) for a in full_args]
     locs = bind_args(interp, finfo, full_args, kwargs, node)
     self_obj = locs.get("self")
     f = Frame(self_obj, locs, ctx, interp)
@@ -139,32 +169,45 @@ def apply_contract(interp, con, finfo, full_args, kwargs, node):
     f.old = None
     fold = Frame(snapshot(self_obj), {k: snapshot(v) for k, v in locs.items()})
     f.old = fold
+    raised = None
     for (tname, when) in con.raises_:
         cond = when(f) if when is not None else ctx.bool("raises." + tname, record=False)
         if interp.truth(cond, node):
-            raise PyExc(tname, (ctx.string("exc.msg", record=False),))
+            raised = tname
+            break
+    f.exc = raised
     if con.summary_fn is not None:
+        if raised is not None:
+            raise PyExc(raised, (ctx.string("exc.msg", record=False),))
         res = con.summary_fn(f)
         f.result = res
         return res
-    # havoc the frame
+    # havoc the frame (also on exceptional exits: the clauses say what holds then)
     for path in (con.modifies_ or []):
         targets = path(f) if callable(path) else [interp.resolve_path(f.args, path, node)]
         for (obj, fld) in targets:
+            if fld == "[]":
+                if hasattr(obj, "havoc"):
+                    obj.havoc(ctx, finfo.name)
+                    ctx.log_write(obj, fld)
+                    continue
+                raise Unsupported("cannot havoc the contents of %r at a call site" % (obj,), node)
             cur = interp.get_attr(obj, fld, node)
             interp.raw_set(obj, fld, interp.havoc_value(interp.kind_of(cur), "%s.%s'" % (
                 finfo.name, path if isinstance(path, str) else fld)))
             ctx.log_write(obj, fld)
     rk = con.result_kind
-    if rk is None:
+    if raised is not None or rk is None:
         res = None
     elif callable(rk):
         res = rk(f)
     else:
         res = interp.havoc_value(rk, finfo.name + ".result")
     f.result = res
-    for cl in con.ensures_:
+    for cl in (con.caller_view_ or con.ensures_):
         ctx.assume(_b(cl.fn(f)))
+    if raised is not None:
+        raise PyExc(raised, (ctx.string("exc.msg", record=False),))
     return res
 
 
@@ -269,10 +312,14 @@ def run_contract_paths(program, registry, con, active_cases=None):
                 if w is not None:
                     ctx.oblige("%s/must-raise:%s" % (con.qualname, t), _b(ops.Not(w(_oldframe(f)))), kind="raises")
             ctx.cover("%s/return" % con.qualname)
+        f.writes = [(cont, key) for (cont, key) in ctx.writes[w0:] if getattr(cont, "oid", 0) <= mark_oid]
         # ---- post-conditions
         if con.ghost_exit is not None:
             con.ghost_exit(f)
-        for cl in con.ensures_:
+        for rv in con.reveal_:
+            for eqn in rv(f):
+                ctx.assume(_b(eqn), definitional=True)
+        for cl in con.ensures_ + con.caller_view_:
             try:
                 g = cl.fn(f)
             except PathDead:
@@ -378,9 +425,10 @@ def solve_obligation(ob, symbols, timeout_ms=None):
     for p in ob.pc:
         s.add(p)
     s.add(neg)
-    r = _check(s, timeout_ms // 2)
+    quant = has_quantifier(neg) or any(has_quantifier(p) for p in ob.pc)
+    r = _check(s, timeout_ms // (4 if quant else 2))
     backend = "z3"
-    if r == z3.unknown:
+    if r == z3.unknown and not quant:
         try:
             s2 = z3.Tactic("qfnra-nlsat").solver()
             for p in ob.pc:
@@ -392,11 +440,16 @@ def solve_obligation(ob, symbols, timeout_ms=None):
         except z3.Z3Exception:
             pass
     if r == z3.unknown:
-        rc = cvc5_check(s.to_smt2(), timeout_ms)
+        rc = cvc5_check(s.to_smt2(), timeout_ms // 4)
         if rc == "unsat":
             return Verdict(ob, "discharged", "cvc5", time.time() - t0)
-        if rc == "sat":
-            return Verdict(ob, "refuted", "cvc5", time.time() - t0, model={}, reason="cvc5 sat (no model extracted)")
+        # undecided by both back ends: look for a *candidate* counter-model of a weakened query (quantified
+        # hypotheses dropped, list lengths bounded).  A candidate is only ever reported as a violation if it
+        # reproduces on the real code (native replay); otherwise the obligation stays undecided.
+        cand = find_candidate(ob, symbols, min(timeout_ms // 2, 10000))
+        if cand is not None:
+            return Verdict(ob, "candidate", "z3-weakened", time.time() - t0, model=cand,
+                           reason="solver unknown on the full query (%s); cvc5: %s" % (s.reason_unknown(), rc))
         return Verdict(ob, "unknown", "z3+cvc5", time.time() - t0, reason=str(s.reason_unknown()))
     if r == z3.unsat:
         return Verdict(ob, "discharged", backend, time.time() - t0)
@@ -404,11 +457,99 @@ def solve_obligation(ob, symbols, timeout_ms=None):
     vals = {}
     for name, sym in symbols.items():
         try:
+            if hasattr(sym, "model_value"):
+                vals[name] = sym.model_value(m)
+                continue
             v = m.eval(sym, model_completion=True)
             vals[name] = model_value(v)
         except z3.Z3Exception:
             pass
     return Verdict(ob, "refuted", backend, time.time() - t0, model=vals)
+
+
+def has_quantifier(e, memo=None):
+    if memo is None:
+        memo = {}
+    k = e.get_id()
+    if k in memo:
+        return memo[k]
+    if z3.is_quantifier(e):
+        memo[k] = True
+        return True
+    r = any(has_quantifier(c, memo) for c in e.children())
+    memo[k] = r
+    return r
+
+
+def ground_universals(e, values, depth=0):
+    """Replace universal quantifiers over integers by their instances on `values` (formula must be in NNF)."""
+    if z3.is_quantifier(e):
+        if not e.is_forall() or depth > 3:
+            return None
+        nv = e.num_vars()
+        if any(e.var_sort(i) != z3.IntSort() for i in range(nv)):
+            return None
+        import itertools
+        insts = []
+        for combo in itertools.product(values, repeat=nv):
+            body = z3.substitute_vars(e.body(), *[z3.IntVal(v) for v in combo])
+            g = ground_universals(body, values, depth + 1)
+            if g is None:
+                return None
+            insts.append(g)
+        return z3.And(*insts)
+    if z3.is_and(e) or z3.is_or(e):
+        ch = []
+        for c in e.children():
+            g = ground_universals(c, values, depth)
+            if g is None:
+                return None
+            ch.append(g)
+        return z3.And(*ch) if z3.is_and(e) else z3.Or(*ch)
+    if has_quantifier(e):
+        return None
+    return e
+
+
+def find_candidate(ob, symbols, timeout_ms):
+    """Model of a bounded approximation: skolemise, then instantiate every remaining universal quantifier on the
+    indices -1..4 and bound every symbolic list to length <= 3.  Only used to propose inputs for native replay."""
+    try:
+        f = z3.And(*(list(ob.pc) + [z3.Not(ob.goal)]))
+        g = z3.Goal()
+        g.add(f)
+        nnf = z3.Tactic("nnf")(g)
+        parts = []
+        for sub in nnf:
+            for c in sub:
+                gc = ground_universals(c, list(range(-1, 5)))
+                if gc is not None:
+                    parts.append(gc)
+        s = z3.Solver()
+        s.set("timeout", timeout_ms)
+        s.add(*parts)
+        for name, sym in symbols.items():
+            if hasattr(sym, "arrays"):
+                s.add(sym.arrays.n <= 3)
+        if s.check() != z3.sat:
+            return None
+        return extract_model(s.model(), symbols)
+    except z3.Z3Exception:
+        return None
+
+
+def extract_model(m, symbols):
+    vals = {}
+    for name, sym in symbols.items():
+        try:
+            if hasattr(sym, "model_value"):
+                vals[name] = sym.model_value(m)
+                continue
+            v = m.eval(sym, model_completion=True)
+            vals[name] = model_value(v)
+        except z3.Z3Exception:
+            pass
+    return vals
 
 
 def model_value(v):
@@ -522,11 +663,11 @@ def verify_contract(program, registry, con, timeout_ms=None, active_cases=None):
         if ob.meta.get("expected"):
             rec["expected"] = ob.meta["expected"]
             rec["case"] = ob.meta.get("case")
-        if v.status == "refuted":
+        if v.status in ("refuted", "candidate"):
             rec["model"] = v.model
             rec["choices"] = ob.choices
             rec["goal"] = ob.goal.sexpr()[:2000]
-        if v.status == "unknown":
+        if v.status in ("unknown", "candidate"):
             rec["reason"] = v.reason
         res["obligations"].append(rec)
     res["solver_s"] = round(solver_s, 3)
